@@ -206,3 +206,47 @@ func runOSOverlay(c *Ctx) {
 	}
 	c.Extra["os_overlay"] = fmt.Sprintf("%d paths of a union MemMapFs base + BasePathFs(OsFs) overlay incl. a base file below an overlay regular file (oracle only)", n)
 }
+
+// C10 with an operating-system cache LAYER (oracle only): MemMapFs.Create registers missing
+// parent directories by itself, the OS does not; the first read of a nested file must create
+// them in the layer and leave a byte-identical copy there.
+func runOSCacheLayer(c *Ctx) {
+	n := 0
+	for _, dur := range []time.Duration{0, time.Hour} {
+		dir, err := os.MkdirTemp("", "afoslayer-")
+		if err != nil {
+			panic(err)
+		}
+		base := afero.NewMemMapFs()
+		files := map[string]string{"/g": "top", "/a/b/f.txt": "nested content", "/a/e": "", "/a/b/c/d/deep": "deep"}
+		old := time.Unix(1000000000, 0)
+		for p, content := range files {
+			afero.WriteFile(base, p, []byte(content), 0o644)
+			base.Chtimes(p, old, old)
+		}
+		u := afero.NewCacheOnReadFs(base, afero.NewBasePathFs(afero.NewOsFs(), dir), dur)
+		for p, content := range files {
+			n++
+			c.Count("oslayer.read")
+			got, err := afero.ReadFile(u, p)
+			if err != nil || string(got) != content {
+				c.Oracle("FAIL oslayer%d first-read:os-layer ReadFile(%q) through the cache over an OsFs layer (duration %v) = %q, %v; the base holds %q", n, p, dur, got, err, content)
+				continue
+			}
+			onDisk, err := os.ReadFile(filepath.Join(dir, p))
+			if err != nil || string(onDisk) != content {
+				c.Oracle("FAIL oslayer%d cache-copy-differs:os-layer after reading %q the layer directory holds %q, %v; want a copy of %q", n, p, onDisk, err, content)
+				continue
+			}
+			if fi, err := os.Stat(filepath.Join(dir, p)); err == nil && !fi.ModTime().Equal(old) {
+				c.Oracle("FAIL oslayer%d cache-mtime-differs:os-layer copy of %q has mtime %v, the base %v", n, p, fi.ModTime().Unix(), old.Unix())
+			}
+			again, err := afero.ReadFile(u, p)
+			if err != nil || string(again) != content {
+				c.Oracle("FAIL oslayer%d second-read:os-layer ReadFile(%q) again = %q, %v", n, p, again, err)
+			}
+		}
+		os.RemoveAll(dir)
+	}
+	c.Extra["os_layer"] = fmt.Sprintf("%d first reads through CacheOnReadFs(MemMapFs, BasePathFs(OsFs, temp dir)) incl. nested files (oracle only)", n)
+}
